@@ -8,6 +8,8 @@ import (
 	"runtime/pprof"
 	"sort"
 	"strconv"
+
+	"golang.org/x/tools/go/ssa"
 )
 
 type propFn func(c *Ctx, r *Report)
@@ -120,6 +122,22 @@ func dumpFacts(c *Ctx, what string) {
 		for _, f := range c.Funcs {
 			for _, e := range c.CG[f] {
 				fmt.Printf("%s -> %s [%s]\n", fname(f), fname(e.Callee), e.Kind)
+			}
+		}
+	case "cgcross":
+		for _, spec := range []struct {
+			name  string
+			roots []*ssa.Function
+			own   map[*ssa.Function]bool
+		}{{"SYNC", []*ssa.Function{c.Sync}, c.RSync}, {"API", c.API, c.RAPI}} {
+			m, e := crossCheckReach(c, spec.roots, spec.own)
+			fmt.Println(spec.name, "reached by VTA but not by the module graph:", len(m))
+			for _, x := range m {
+				fmt.Println("  +", x)
+			}
+			fmt.Println(spec.name, "reached by the module graph but not by VTA:", len(e))
+			for _, x := range e {
+				fmt.Println("  -", x)
 			}
 		}
 	case "sql":
